@@ -57,6 +57,13 @@ Section Alist.
   Definition permb (l e : list (K * bytes)) : bool :=
     (length l =? length e)%nat && nodupk (keys l) && nodupk (keys e)
     && forallb (fun kv => obeqb (lookup (fst kv) e) (Some (snd kv))) l.
+  (* how a Go map [m] comes back from a decoder: absent (nil) when it was empty, otherwise an
+     equal finite map *)
+  Definition map_back (o : option (list (K * bytes))) (m : list (K * bytes)) : Prop :=
+    match m with
+    | [] => o = None
+    | _ :: _ => exists l, o = Some l /\ fm_eq l m
+    end.
 End Alist.
 
 Definition slookup := lookup beqb.
@@ -197,6 +204,18 @@ Definition parse_secs (b : bytes) : option (list sec) := parse_secs_fuel (S (len
 (* the size the frame declares: 4 * field, a mathematical product *)
 Definition field_at (b : bytes) (off n : nat) : N := unbe (seg b off n).
 Definition declared (b : bytes) : N := if len b <? L_meta then 0 else 4 * field_at b 12 2.
+
+(* the header info a frame carries: [declared b] bytes after the 14-byte meta block *)
+Definition info_of (b : bytes) : bytes := take (declared b) (drop L_meta b).
+
+(* the frames a decoder must accept, and no others: long enough for what they declare, magic,
+   declared size within 2..65536, supported protocol id, transform ids within the info, and
+   the rest of the info a sequence of complete sections (padding may interleave) *)
+Definition accepts (b : bytes) : Prop :=
+  L_meta + declared b <= len b /\ field_at b 4 2 = L_magic16 /\ 2 <= declared b <= L_max /\
+  exists pid nt rest secs,
+    info_of b = pid :: nt :: rest /\ In pid L_pids /\ nt <= declared b - 2 /\
+    secs_ok secs /\ drop nt rest = enc_secs secs.
 
 Record dspec := {
   s_flags : N; s_seq : Z; s_pid : N;
